@@ -59,6 +59,9 @@ func c09kinds() []c09kind {
 		{"self-call-in-arg", "[n acc]", "acc", `(f (- n 1) (f 0 (+ acc n)))`, "0", true, false},
 		{"self-call-in-arg-let", "[n acc]", "acc", `(f (- n 1) (let [z (+ acc n)] (f 0 z)))`, "0", true, false},
 		{"self-call-in-arg-cond", "[n acc]", "acc", `(f (- n 1) (cond (== n -5) 0 (begin (f 0 (+ acc n)))))`, "0", true, false},
+		// no parameters at all: the recursion is driven by global state (the function scope must still be fresh per iteration)
+		{"zero-param-closure", "[]", `(map (fn [g] (g)) accg)`, `(begin (def loc (* cnt 10)) (set accg (append accg (fn [] loc))) (set cnt (- cnt 1)) (f))`, "", false, false},
+		{"zero-param-local-retyped", "[]", `accs`, `(begin (def loc (cond (== cnt 2) "s" cnt)) (set accs (+ accs cnt)) (set cnt (- cnt 1)) (f))`, "", false, false},
 		{"wrong-arity", "[n acc]", "acc", `(f (t 1 (- n 1)))`, "0", false, true},
 		{"wrong-arity-more", "[n acc]", "acc", `(f (- n 1) acc (t 1 7))`, "0", false, true},
 		{"variadic-too-few", "[n m & r]", "r", `(f (t 1 (- n 1)))`, "0", false, true},
@@ -82,6 +85,26 @@ func c09program(chain *T, k c09kind, n int) []*T {
 		}
 		return c
 	}
+	if k.params == "[]" {
+		// driven by the globals cnt / accg / accs; fz sets them up, so that the final form keeps the shape (list (fz N) gv)
+		var ren func(t *T) *T // the contexts mention the parameter n: here the counter is the global cnt
+		ren = func(t *T) *T {
+			if t.IsSym("n") {
+				return Sym("cnt")
+			}
+			if len(t.L) == 0 {
+				return t
+			}
+			cp := &T{K: t.K, S: t.S, I: t.I, L: make([]*T, len(t.L))}
+			for i, x := range t.L {
+				cp.L[i] = ren(x)
+			}
+			return cp
+		}
+		body := L(Sym("cond"), p1("(== cnt 0)"), p1(k.base), fill(ren(chain)))
+		def := L(Sym("begin"), L(Sym("defn"), Sym("f"), p1("[]"), body), p1(`(defn fz [m] (begin (set cnt m) (set accg []) (set accs 0) (f)))`))
+		return []*T{def, p1("(list (fz " + strconv.Itoa(n) + ") gv)")}
+	}
 	body := L(Sym("cond"), p1("(== n 0)"), p1(k.base), fill(chain))
 	def := L(Sym("defn"), Sym("f"), p1(k.params), body)
 	callTxt := "(f " + strconv.Itoa(n)
@@ -92,7 +115,9 @@ func c09program(chain *T, k c09kind, n int) []*T {
 	return []*T{def, p1("(list " + callTxt + " gv)")}
 }
 
-func c09prelude() []*T { return Parse(`(defn helper [x] (t 99 x)) (def gv 0)`) }
+func c09prelude() []*T {
+	return Parse(`(defn helper [x] (t 99 x)) (def gv 0) (def cnt 0) (def accg []) (def accs 0)`)
+}
 
 type hwm struct{ data, scope, addr, loop int }
 
@@ -153,6 +178,9 @@ func c09space(c *engine.Ctx, forms []*T, label string) (zy.Res, hwm) {
 }
 
 func c09one(c *engine.Ctx, chainName string, chain *T, k c09kind, thorough bool) {
+	if k.params == "[]" && strings.Contains(chainName, "let-shadow") {
+		return // the shadowing let would hide the global counter from the decrement: no terminating program
+	}
 	key := k.name + "/" + chainName
 	// (1) transparency against R1
 	for _, n := range []int{0, 1, 2, 3, 10} {
@@ -307,7 +335,7 @@ func init() {
 	engine.Register(&engine.Check{
 		ID:    "C09",
 		Level: "exploration",
-		Rule: "every composition of tail contexts {cond default arm, cond first arm, begin last, let, letseq, newScope, and, or, let shadowing the parameter} to nesting depth 2 (thorough 3) x 15 body kinds " +
+		Rule: "every composition of tail contexts {cond default arm, cond first arm, begin last, let, letseq, newScope, and, or, let shadowing the parameter} to nesting depth 2 (thorough 3) x 17 body kinds " +
 			"(plain, local def, closure over parameter/local, mutating closure, helper call, variadic, lazy parameter, traced argument order): transparency vs the reference evaluator for depths 0,1,2,3,10; " +
 			"stack high-water marks (sampled in a pre-call hook) equal for depths 10,60,300 (thorough: 10,100,1000 and 100000 for the accumulating kinds); distinct_nontrivial = distinct (shape, depth, high-water, value) tuples",
 		Assumptions: []string{
